@@ -7,7 +7,8 @@ K (parent map = K with complete parent tuples, optionally with the cached
 optionally ``null:``).  The recipe is built by the real
 ``search_result_from_parent_map`` and, for every tip set of <= 2 keys (known,
 unknown, ghost or foreign) and every depth in {1,2,3,100}, by the real
-``limited_search_result_from_parent_map``; serialised by the real
+``limited_search_result_from_parent_map`` (tip sets of one key only at the largest bound of
+the thorough tier); serialised by the real
 ``RemoteRepository._serialise_search_recipe``; replayed by the real
 ``SmartServerRepositoryRequest.recreate_search_from_recipe`` on the full graph
 (vcsgraph ``Graph`` over the complete parent map).  Oracle: the count check
@@ -25,6 +26,8 @@ import itertools
 
 from mc import par
 from mc.evidence import HarnessError
+
+from ._sigacc import SigAcc, smallest
 
 ID = "C33"
 LEVEL = "exploration"
@@ -187,15 +190,28 @@ def _exc_sig(e):
     return "%s:%s" % (type(e).__name__, fn)
 
 
+class _Lazy:
+    """Violation detail, materialised only when a violation is recorded."""
+    __slots__ = ("kw",)
+
+    def __init__(self, **kw):
+        self.kw = kw
+
+    def d(self, **more):
+        out = {k: (sorted(v) if isinstance(v, (set, frozenset)) or (k == "known") else v) for k, v in self.kw.items()}
+        out.update(more)
+        return out
+
+
 def check_graph(S, d, acc, variants, limited, ident):
-    """All K / missing / tips / depth cases for one DAG."""
+    """All K / missing / tips / depth cases for one DAG (limited = 0/False or max number of tip keys)."""
     vf = S["vf"]
     full = full_map(d)
     repo = FakeRepo(full)
     nodes = list(full)
     ghosts_all = sorted({p for ps in full.values() for p in ps if p not in full and p != NULL})
     tipcands = nodes + ghosts_all + [FOREIGN]
-    tipsets = [frozenset(t) for k in (1, 2) for t in itertools.combinations(tipcands, k)]
+    tipsets = [frozenset(t) for k in range(1, (limited or 0) + 1) for t in itertools.combinations(tipcands, k)]
     for r in range(len(nodes) + 1):
         for K in itertools.combinations(nodes, r):
             pm = {k: full[k] for k in K}
@@ -215,18 +231,18 @@ def check_graph(S, d, acc, variants, limited, ident):
                     cases += [(pm, m | {NULL}) for m in miss_opts]
             for pmap, missing in cases:
                 acc.n += 1
-                detail = {"graph": full, "known": sorted(pmap), "missing_keys": sorted(missing)}
+                detail = _Lazy(graph=full, known=pmap, missing_keys=missing)
                 try:
                     recipe = vf.search_result_from_parent_map(dict(pmap), set(missing))
                     got, err, body = send(S, repo, recipe)
                 except Exception as e:  # noqa
-                    acc.violation("unlimited:%s" % _exc_sig(e), detail)
+                    acc.violation("unlimited:%s" % _exc_sig(e), detail.d())
                     continue
-                detail["recipe"] = body
+                detail.kw["recipe"] = body
                 if not closed or missing:
                     acc.count("nt_unlimited")
                 if err:
-                    acc.violation("unlimited:%s%s" % (err, ":null-in-missing" if NULL in missing else ""), detail)
+                    acc.violation("unlimited:%s%s" % (err, ":null-in-missing" if NULL in missing else ""), detail.d())
                     continue
                 want = set(pmap)
                 # NULL is not a revision: when the client lists it as missing the server still walks
@@ -235,7 +251,7 @@ def check_graph(S, d, acc, variants, limited, ident):
                     extra, lost = got - want, want - got
                     acc.violation("unlimited:server-walk-%s" % ("-and-".join(
                         x for x, s in (("extra", extra - {NULL} or (extra and NULL not in missing)), ("missing", lost)) if s) or "differs"),
-                        dict(detail, server_included=sorted(got)))
+                        detail.d(server_included=sorted(got)))
                     continue
                 acc.outcomes.add(("u", len(recipe[0]), len(recipe[1]), recipe[2]))
                 if ident is not None and acc.n <= 3:
@@ -253,25 +269,25 @@ def check_graph(S, d, acc, variants, limited, ident):
                     for depth in DEPTHS:
                         acc.n += 1
                         acc.count("limited")
-                        detail = {"graph": full, "known": sorted(pmap), "tips": sorted(tips), "depth": depth}
+                        detail = _Lazy(graph=full, known=pmap, tips=tips, depth=depth)
                         try:
                             recipe = vf.limited_search_result_from_parent_map(dict(pmap), set(gref), set(tips), depth)
                             got, err, body = send(S, repo, recipe)
                         except Exception as e:  # noqa
-                            acc.violation("limited:%s" % _exc_sig(e), detail)
+                            acc.violation("limited:%s" % _exc_sig(e), detail.d())
                             continue
-                        detail["recipe"] = body
+                        detail.kw["recipe"] = body
                         if err:
-                            acc.violation("limited:%s" % err, detail)
+                            acc.violation("limited:%s" % err, detail.d())
                             continue
                         intended = ref_walk(set(recipe[0]), set(recipe[1]), pmap)
                         if not got <= set(pmap):
                             acc.violation("limited:server-walk-includes-revision-unknown-to-client",
-                                          dict(detail, server_included=sorted(got)))
+                                          detail.d(server_included=sorted(got)))
                             continue
                         if got != intended or len(got) != recipe[2]:
                             acc.violation("limited:server-walk-differs-from-client-walk",
-                                          dict(detail, server_included=sorted(got), client=sorted(intended)))
+                                          detail.d(server_included=sorted(got), client=sorted(intended)))
                             continue
                         if got:
                             acc.count("nt_limited")
@@ -282,7 +298,7 @@ def check_graph(S, d, acc, variants, limited, ident):
 
 def _work(chunk):
     S = _setup()
-    acc = par.Acc()
+    acc = SigAcc()
     for item, variants, limited in chunk:
         for d in expand_item(item):
             acc.count("graphs")
@@ -335,7 +351,7 @@ def _work_b(chunk):
     from mc.vfs import new_store
     S = _setup()
     vf = S["vf"]
-    acc = par.Acc()
+    acc = SigAcc()
     for d in chunk:
         full = full_map(d)
         store = new_store()
@@ -406,28 +422,30 @@ def _smallest(violations):
 
 
 def plan(ctx):
-    """[(n, nghost, variants, limited)] for part A."""
+    """[(n, nghost, variants, limited, max_tips)] for part A."""
     if ctx.thorough:
-        return [(n, 2, True, True) for n in range(1, 5)] + [(5, 2, True, False), (5, 1, False, True),
-                                                            (6, 0, False, False), (6, 1, False, False)]
-    return [(n, 2, True, True) for n in range(1, 4)] + [(4, 2, True, False), (4, 1, False, True), (5, 1, False, False)]
+        return [(n, 2, True, True, 2) for n in range(1, 5)] + [(5, 2, True, False, 0), (5, 1, False, True, 1),
+                                                               (6, 0, False, False, 0)]
+    return [(n, 2, True, True, 2) for n in range(1, 4)] + [(4, 2, True, False, 0), (4, 1, False, True, 2),
+                                                           (5, 1, False, False, 0)]
 
 
 def run(ctx):
     S = _setup()
     # determinism audit: first graphs twice
     for d in itertools.islice(graphs(3, 1), 25):
-        a1, a2 = par.Acc(), par.Acc()
-        check_graph(S, d, a1, True, True, None)
-        check_graph(S, d, a2, True, True, None)
+        a1, a2 = SigAcc(), SigAcc()
+        check_graph(S, d, a1, True, 2, None)
+        check_graph(S, d, a2, True, 2, None)
         if (a1.n, a1.outcomes, a1.counters, a1.violations) != (a2.n, a2.outcomes, a2.counters, a2.violations):
             raise HarnessError("non-deterministic result for graph %r" % (d,))
     items = []
     bounds = []
-    for n, ng, variants, limited in plan(ctx):
+    for n, ng, variants, limited, max_tips in plan(ctx):
         its = graph_items(n, ng)
-        items.extend((it, variants, limited) for it in its)
-        bounds.append({"nodes": n, "ghosts": ng, "null_variants": variants, "depth_limited": limited})
+        items.extend((it, variants, limited and max_tips) for it in its)
+        bounds.append({"nodes": n, "ghosts": ng, "null_variants": variants, "depth_limited": bool(limited),
+                       "max_tip_keys": max_tips if limited else None})
     acc = par.merge(par.pmap(_work, items, seed=ctx.seed, chunks_per_job=8))
     nb, gb = ctx.q(3, 4), ctx.q(1, 1)
     b_items = [d for n in range(1, nb + 1) for d in graphs(n, gb)]
@@ -453,7 +471,7 @@ def run(ctx):
                 "or ghost matters), limited recipe whose walk is non-empty, end-to-end request whose ancestry meets the known set",
         "bounds": bounds,
         "e2e_bounds": {"nodes": nb, "ghosts": gb, "requested": "<=2 keys not known", "depths": [1, 2, 100]},
-        "tips": "every set of <=2 keys over nodes + ghosts + one foreign key", "depths": list(DEPTHS),
+        "tips": "every set of <= max_tip_keys keys over nodes + ghosts + one foreign key", "depths": list(DEPTHS),
         "samples": acc.samples[:3],
         "exhaustive": True,
     }
